@@ -9,7 +9,7 @@ META = {
     'rule': 'a known automaton (DFA/NFA/PDA/TM, seeded random) is rendered in many layouts (line order shuffled, optional declarations '
             'present or omitted when they can be derived, comment and blank lines, extra white space, labels grouped per edge or one per '
             'line) and must parse to exactly that automaton; every single-fault corruption (transition removed -> not total, second target '
-            '-> nondeterministic, undeclared state, undeclared symbol, no initial line, two initial states, repeated declaration, '
+            '-> nondeterministic, undeclared state, a used state missing from the states line, undeclared symbol, no initial line, two initial states, repeated declaration, '
             'transition with <3 words, ill-formed label) must be rejected with an error; outcomes compared with the Lean parser; every '
             'returned object is checked against its class invariant; non-trivial = layout differing from the printer\'s, or a corruption; '
             'distinct by text',
@@ -108,7 +108,7 @@ def corrupt(kind, X, rng):
     """returns (fault name, text) for one single-fault corruption of a fully explicit rendering"""
     L, trans = decl_lines(kind, X, rng, omit=False)
     T = ['%s %s %s' % t for t in trans]
-    faults = ['no-initial', 'two-initial', 'repeated-declaration', 'short-transition', 'undeclared-state']
+    faults = ['no-initial', 'two-initial', 'repeated-declaration', 'short-transition', 'undeclared-state', 'states-line-incomplete']
     if kind == 'dfa':
         if T:
             faults += ['not-total', 'nondeterministic']
@@ -135,6 +135,18 @@ def corrupt(kind, X, rng):
         L2 = [('initial %s %s' % (X['q0'], others[0])) if l.startswith('initial') else l for l in L2]
     elif f == 'repeated-declaration':
         L2.append(rng.choice(L2))
+    elif f == 'states-line-incomplete':
+        # the explicit states line misses a state that the description uses (initial / final / accept / reject / in a transition)
+        used = {X['q0']} | set(X.get('F', [])) | {t[0] for t in trans} | {t[1] for t in trans}
+        if kind == 'tm':
+            used |= {X['qa'], X['qr']}
+            drop = rng.choice([X['qa'], X['qr'], rng.choice(sorted(used))])
+        else:
+            drop = rng.choice(sorted(used))
+        rest = [q for q in X['Q'] if q != drop]
+        if not rest:
+            return None
+        L2 = [('states ' + ' '.join(rest)) if l.startswith('states') else l for l in L2]
     elif f == 'short-transition':
         T2.append('%s %s' % (X['q0'], X['q0']))
     elif f == 'undeclared-state':
